@@ -2,6 +2,7 @@ package p2psync
 
 import (
 	"errors"
+	"time"
 
 	"github.com/bitcoin-sv/block-headers-service/domains"
 	"github.com/bitcoin-sv/block-headers-service/internal/chaincfg"
@@ -29,8 +30,8 @@ func (h *syncHeaders) LatestHeaderLocator() domains.BlockLocator {
 	t := h.tipHash // a copy, as the real service returns: the peer keeps the pointer for its duplicate filter
 	return domains.BlockLocator{&t}
 }
-func (h *syncHeaders) CountHeaders() int                         { return int(h.tipHeight) + 1 }
-func (h *syncHeaders) IsCurrent() bool                           { return h.current }
+func (h *syncHeaders) CountHeaders() int { return int(h.tipHeight) + 1 }
+func (h *syncHeaders) IsCurrent() bool   { return h.current }
 func (h *syncHeaders) GetHeightByHash(x *chainhash.Hash) (int32, error) {
 	if x.IsEqual(&h.tipHash) {
 		return h.tipHeight, nil
@@ -188,4 +189,53 @@ func HarnessSyncPeerLost(n int, disabled int) {
 		vh.Assert("C06/new-sync-peer-is-asked", ok && vh.HashEq(gh.HashStop, expectedStop(cps, disable, hs.tipHeight)))
 	}
 	vh.Reach("end")
+}
+
+// HarnessStalledSyncPeer (C06, step P6): the periodic check. A sync peer that delivered nothing
+// for longer than the stall limit while we are still below its height is disconnected and
+// another candidate is asked; one that is within the limit, or whose height we have reached,
+// is kept.
+func HarnessStalledSyncPeer(n int, disabled int) {
+	disable := disabled == 1
+	sm, hs, _, cps := c06Manager(n, disable)
+	a := peerpkg.HarnessSyncCandidate(vh.Logger(), 1, vh.NondetI32("heightA"))
+	b := peerpkg.HarnessSyncCandidate(vh.Logger(), 2, vh.NondetI32("heightB"))
+	vh.Assume(a.LastBlock() >= hs.tipHeight && b.LastBlock() >= hs.tipHeight)
+	sm.handleNewPeerMsg(a)
+	sm.handleNewPeerMsg(b)
+	vh.Assume(sm.syncPeer != nil)
+	cur, other := a, b
+	if sm.syncPeer == b {
+		cur, other = b, a
+	}
+	_ = peerpkg.HarnessSent(cur)
+	_ = peerpkg.HarnessSent(other)
+	// the last progress was `idle` seconds ago
+	idle := vh.NondetI64("idleSeconds")
+	vh.Assume(idle >= 0 && idle < 1<<20 && (idle <= 170 || idle >= 190)) // away from the limit: the replay runs on the real clock
+	t0 := vh.Now()
+	sm.syncPeerState.lastBlockTime = t0.Add(-time.Duration(idle) * time.Second)
+	caughtUp := cur.LastBlock() == hs.tipHeight
+
+	sm.handleCheckSyncPeer()
+
+	vh.Assume(vh.Now().Unix()-t0.Unix() <= 1) // the step itself takes no noticeable time
+
+	stalled := idle >= 190
+	if stalled && !caughtUp {
+		vh.Assert("C06/stalled-sync-peer-is-disconnected", peerpkg.HarnessDisconnected(cur))
+		vh.Assert("C06/a-sync-peer-is-chosen-after-a-stall", sm.syncPeer != nil)
+		if sm.syncPeer == other {
+			sent := peerpkg.HarnessSent(other)
+			vh.Assert("C06/new-sync-peer-is-asked", len(sent) == 1)
+			if len(sent) == 1 {
+				gh, ok := sent[0].(*wire.MsgGetHeaders)
+				vh.Assert("C06/new-sync-peer-is-asked", ok && vh.HashEq(gh.HashStop, expectedStop(cps, disable, hs.tipHeight)))
+			}
+		}
+		vh.Reach("replaced")
+		return
+	}
+	vh.Assert("C06/sync-peer-within-the-stall-limit-or-caught-up-is-kept", sm.syncPeer == cur && !peerpkg.HarnessDisconnected(cur) && len(peerpkg.HarnessSent(other)) == 0)
+	vh.Reach("kept")
 }
